@@ -59,3 +59,8 @@ CHECKS['C18'] = _c('exploration',
     "Trace checking against a reference fold: seeded step scripts (search / room / user search, wishlist rounds, manual removal, peer replies with live / stale / unknown / duplicate tickets, operations on the public request.timer) with steps placed exactly at timer deadlines in both orders; one ordered log of bus events, harness actions and registry snapshots is folded into the set of live requests and judged (result iff live and same ticket, distinct live tickets, removal exactly once at t+timeout, nothing after a manual removal, cancelled / re-armed timers never fire for a superseded deadline). Cases 0-242 enumerate every single follow-up x search type x 8 positions around the deadline.",
     "A KeyError raised synchronously by remove_request for a request that is no longer registered is not judged.",
     "offline trace checker (fold) over an ordered event log with same-instant races")
+
+CHECKS['C10'] = _c('fault_enumeration',
+    "Trace-automaton monitoring of every connection object of a real client: an online automaton over ConnectionStateChangedEvent / MessageReceivedEvent (forward-only states, CLOSED exactly once, nothing after it, no delivery after it, no byte on the tap for a send after it) plus a structural comparison, at quiescent moments, of the registry of peer connections with the simulated network's open endpoints and with the tasks that created the connections. Workload: enumerated/seeded endings (9 incoming init behaviours, outgoing, plain/obfuscated, P/D/F; local disconnect x1-3, remote EOF/RST, read timeout, write timeout, both sides at once, client stop), plus the C11 request grid with cancellation of the connecting task after k = 0..14 loop steps and the connect-back scenarios.",
+    "A closing endpoint whose FIN is in flight is not a leak; an idle outgoing file connection is given a reader as the library's own callers do.",
+    "online trace automaton + structural invariant against simulated-network ground truth at quiescent points")
